@@ -1,9 +1,14 @@
 (* Toc.v -- Document::get_toc (src/toc.rs) over get_outlines / get_outline / build_outline_result
    (src/outlines.rs), setup_outline_page_ids and setup_page_id_to_num.  Definitions only.
 
-   * The First/Next walk of get_outlines has no termination argument in Rust (a cyclic outline
-     never returns): explicit fuel, one unit per visited node, [WFuel] when it runs out.
-   * Errors of get_outline are swallowed by `if let Ok(Some(..))`, panics are not: [RPanic].
+   * get_outlines / get_outlines_limited: the First/Next walk follows at most objects.len()
+     *references* (ref_budget, one unit per reference followed through First or Next) and nests First
+     at most OUTLINE_DEPTH_LIMIT deep, else Err(ReferenceLimit) (commit a720232).  Inline
+     dictionaries cost nothing, so the Gallina recursion still carries explicit fuel (one unit per
+     visited node, [WFuel] when it runs out; Proofs: never on the builder's output).
+   * Errors of get_outline are swallowed by `if let Ok(Some(..))`.  Since commit bcaf31f a
+     destination array shorter than two elements is an error, no longer an index panic; the
+     [RPanic] / [WPanic] / [TPanic] outcomes are kept in the result types but nothing produces them.
    * Named destinations: when the catalog has a Dests (or Names/Dests) dictionary the Rust code
      runs get_named_destinations first; that function is not modelled here ([WUnmodelled]).  With
      no such tree the map is empty and a string destination yields Ok(None).
@@ -11,7 +16,7 @@
      page() are read, so it is the triple.
    * Titles come back as Rust Strings = lists of scalar values; String::from_utf16_lossy and
      String::from_utf8_lossy are Rust std behaviour (trusted base, tied by correspondence). *)
-From LV Require Import Base.Bytes Base.Sx Model.Obj Model.DocQ Model.PageTree Model.Outline.
+From LV Require Import Base.Bytes Base.Sx Model.Obj Model.DocQ Model.PageTree Model.Outline Gen.QueryC.
 
 Definition K_Dest := Eval cbv in bs "Dest".
 Definition K_Dests := Eval cbv in bs "Dests".
@@ -46,7 +51,7 @@ Definition get_dict_in_dict (m : objmap) (node : dict) (k : bytes) : option dict
 Definition bor_direct (dest title : obj) : res (option outline) :=
   match dest with
   | OArr (a0 :: a1 :: _) => ROk (Some (ODest title a0 a1))
-  | OArr _ => RPanic                                   (* obj_array[0] / obj_array[1] out of bounds *)
+  | OArr _ => RErr                                     (* "Destination array too short" *)
   | OStr _ _ => ROk None                               (* named_destinations is empty *)
   | _ => RErr
   end.
@@ -91,46 +96,64 @@ Definition get_outline (m : objmap) (node : dict) : res (option outline) :=
     end
   end.
 
-(* the loop of get_outlines started at dictionary [node]; recursive call on First *)
-Fixpoint walk (fuel : nat) (m : objmap) (node : dict) : wres (list outline) :=
+(* follow_outline_reference: None = Err(ReferenceLimit) *)
+Definition follow_ref (budget : N) : option N :=
+  if (budget =? 0)%N then None else Some (budget - 1)%N.
+
+(* the loop of get_outlines_limited started at dictionary [node] with [budget] references left, at
+   First-nesting [depth]; returns the outlines and the remaining budget.  The recursive call on
+   First resolves its argument on entry (a dictionary, or a reference: one unit of budget). *)
+Fixpoint walk (fuel : nat) (m : objmap) (node : dict) (budget depth : N) : wres (list outline * N) :=
   match fuel with
   | O => WFuel
   | S f =>
-    match get_outline m node with
-    | RPanic => WPanic
-    | r =>
-      let item := match r with ROk (Some o) => [o] | _ => [] end in
-      let sub : wres (list outline) :=
-        match dict_get node K_First with
-        | None => WOk []
-        | Some first =>
-          let fd := match first with
-                    | ODict d => Some d
-                    | ORef i g => get_dictionary m (i, g)
-                    | _ => None
-                    end in
+    let item := match get_outline m node with ROk (Some o) => [o] | _ => [] end in
+    let sub : wres (list outline * N) :=
+      match dict_get node K_First with
+      | None => WOk ([], budget)
+      | Some first =>
+        if (OUTLINE_DEPTH_LIMIT <=? depth)%N then WErr
+        else
+          let fd : option (dict * N) :=
+            match first with
+            | ODict d => Some (d, budget)
+            | ORef i g =>
+              match follow_ref budget with
+              | None => None
+              | Some b1 => match get_dictionary m (i, g) with Some d => Some (d, b1) | None => None end
+              end
+            | _ => None
+            end in
           match fd with
           | None => WErr
-          | Some d =>
-            match walk f m d with
-            | WOk [] => WOk []
-            | WOk subs => WOk [OSub subs]
+          | Some (d, b1) =>
+            match walk f m d b1 (depth + 1) with
+            | WOk ([], b2) => WOk ([], b2)
+            | WOk (subs, b2) => WOk ([OSub subs], b2)
             | e => e
             end
           end
+      end in
+    match sub with
+    | WOk (s, b2) =>
+      let nb : option N :=
+        match dict_get node K_Next with
+        | Some (ORef _ _) => follow_ref b2
+        | _ => Some b2
         end in
-      match sub with
-      | WOk s =>
+      match nb with
+      | None => WErr
+      | Some b3 =>
         match get_dict_in_dict m node K_Next with
         | Some n =>
-          match walk f m n with
-          | WOk r => WOk (item ++ s ++ r)
+          match walk f m n b3 depth with
+          | WOk (r, b4) => WOk (item ++ s ++ r, b4)
           | e => e
           end
-        | None => WOk (item ++ s)
+        | None => WOk (item ++ s, b3)
         end
-      | e => e
       end
+    | e => e
     end
   end.
 
@@ -155,7 +178,14 @@ Definition get_outlines_top (fuel : nat) (d : doc) : wres (list outline) :=
       let dict_node := match get_dict_in_dict m od K_First with Some f => f | None => od end in
       match named_tree m cat with
       | Some _ => WUnmodelled
-      | None => walk fuel m dict_node
+      | None =>
+        match walk fuel m dict_node (N.of_nat (length m)) 0 with
+        | WOk (outs, _) => WOk outs
+        | WErr => WErr
+        | WPanic => WPanic
+        | WFuel => WFuel
+        | WUnmodelled => WUnmodelled
+        end
       end
     end
   end.
